@@ -553,7 +553,11 @@ theorem node4_addChild_small (E : Env C) (h : Hdr) (len : Nat) (keys : BitVec 32
     show decide (hl len < 4) = true
     rw [this]; simpa using hlen
   have hlt : (hl len).toNat = len := hl_toNat _ (by omega)
-  simp only [node4_addChild, hd, if_true]
+  -- the same fact for the guard-clause form `if n4.childrenLen >= maxNode4 { grow; return }` of the method
+  have hd' : decide ((img4 h len keys slots : Img C).childrenLen ≥ (4 : UInt8)) = false := by
+    show decide ((4 : UInt8) ≤ hl len) = false
+    rw [decide_eq_false_iff_not, UInt8.le_iff_toNat_le, hlt]; show ¬ 4 ≤ len; omega
+  simp only [node4_addChild, hd, hd', if_true, Bool.false_eq_true, if_false]
   simp only [img4, hlt, add4, maxNode4_eq, hlen, ↓reduceIte, outOf, b8]
   rcases firstIdx_cases (fun k => decide (b ≤ k)) (lanes keys) with h1 | ⟨n, h1, hn⟩
   · simp only [insertPosNode4_spec, h1]
@@ -598,7 +602,10 @@ theorem node4_addChild_grow (E : Env C) (hpz : PoolsZero E) (h : Hdr) (keys : Bi
   have h16 := node16_addChild_small E h 4 ((Gen.deconstruct keys).map Raw.u8 ++ List.replicate 12 0)
     (slots.take 4 ++ List.replicate 12 none) b c hs16 hk16 (by omega)
   have hclear := node4_clear_eq E h 4 keys slots hs
-  simp only [node4_addChild, hd, Bool.false_eq_true, if_false, hpz 1, Option.bind_eq_bind, hck, hcs, Option.bind_some,
+  have hd' : decide ((img4 h 4 keys slots : Img C).childrenLen ≥ (4 : UInt8)) = true := by
+    show decide ((4 : UInt8) ≤ hl 4) = true
+    rfl
+  simp only [node4_addChild, hd, hd', if_true, Bool.false_eq_true, if_false, hpz 1, Option.bind_eq_bind, hck, hcs, Option.bind_some,
     hclear, pure, List.nil_append, List.append_nil]
   change (node16_addChild E (img16 h 4 ((Gen.deconstruct keys).map Raw.u8 ++ List.replicate 12 0)
     (slots.take 4 ++ List.replicate 12 none)) b (some c)).bind _ = _
